@@ -120,6 +120,15 @@ open_(['C05'], r'crash:(nonrepro-)?signal:SIG(SEGV|ABRT|FPE|BUS):.*', 'row repre
 open_(SOLVE + ['C14'], r'(netlib\.)?(history-dependent|complete|cert|verdict|wrong-verdict|reuse|resolve|basis|[a-z]+\.resume|state)[A-Za-z0-9_.\-]*:\{[^}]*starter=[123][^}]*\}.*',
       'nonbasic free rows are never priced: SPxSolverBase::coTest() has no P_FREE case (and entering one throws XENTER02 "not yet debugged"), so a start basis with a nonbasic free row - produced by the weight/sum/vector starters (minimal cell contains starter=1|2|3) - is reported OPTIMAL with a nonzero dual on the free row, e.g. for an unbounded LP, or ends RUNNING/ERROR after the internal exception (same root cause as the C06 free-row warm start finding; 87 % of the disagreements of the design-phase calibration)', regex=True,
       repro='findings/C17_starter_free_row_optimal.cpp')
+open_(['C01', 'C09'], r'(user\.)?cert\.(slack|side):\{\}\+needs\{simplifier,scaler\}',
+      'default configuration on a badly scaled LP that presolve solves completely (forcing row + redundant rows, on the persistently scaled LP): the slack of a removed ranged row is reported at the wrong side (rhs instead of lhs, 10 % of the activity off); x and the objective are right', regex=True,
+      repro='findings/C01_default_slack_wrong_side.cpp')
+open_(['C01'], r'cert\.(bound|side|slack):\{[^}]*scaler=0[^}]*\}.*',
+      'scaling switched off (scaler=0) on badly scaled LPs: OPTIMAL is reported with sides / bounds violated far beyond the tolerance (0.375 and 40 on rows whose terms are below 1e6), with the Harris as well as the textbook ratio test; the final verification does not catch it', regex=True,
+      repro='./vcheck C01 --tier thorough: keys C01:cert.side:{ratiotester=1,scaler=0}, C01:cert.side:{ensureray=1,ratiotester=1,representation=1,scaler=0}')
+open_(['C01'], r'(netlib\.)?complete\.NO_PROBLEM:.*',
+      'a solve from scratch can end with status NO_PROBLEM (netlib scfxm1 with {min_markowitz=0.5,pricer=2,ratiotester=1,representation_switch=0.5}): the internal fallback after numerical trouble leaves the status unset', regex=True,
+      repro='./vcheck C01 --tier thorough: key C01:netlib.complete.NO_PROBLEM:{min_markowitz=0.5,pricer=2,ratiotester=1,representation_switch=0.5}')
 open_(['C01'], r'cert\.(bound|side):\{[^}]*ratiotester=0[^}]*\}.*',
       'textbook ratio test (ratiotester=0) on badly scaled LPs (with or without scaling): OPTIMAL is reported with a bound violated far beyond the tolerance (2e-3 on a variable boxed in +-7e-4, 0.05 in another instance); the final verification does not catch it', regex=True,
       repro='./vcheck C01 --seed 7: key C01:cert.bound:{ratiotester=0,representation_switch=5,scaler=0}')
@@ -154,8 +163,8 @@ open_(['C08'], r'basis\.(bound|singular|count)\.(okay|vanished):\{[^}]*\}',
 open_(['C08'], r'postsolve\.(rcsign|compl-col)\.(okay|vanished):\{[^}]*FreeColSingleton[^}]*RowSingleton[^}]*\}',
       'FreeColSingletonPS followed by RowSingletonPS: the reduced cost of a column whose bound was moved by the row singleton keeps a sign that is only valid for the tightened (finite) bound although the original bound is infinite', regex=True,
       repro='findings/C08_rcsign_freecolsingleton_rowsingleton.lp (keepbounds=true)')
-open_(['C08'], r'postsolve\.(compl-row|dualsign)\.(okay|vanished):\{[^}]*RowSingleton[^}]*\}',
-      'RowSingletonPS: the dual of a removed singleton row gets the wrong sign / is not complementary for a row that is one-sided in the original LP', regex=True)
+open_(['C08'], r'postsolve\.(compl-row|dualsign|rcsign|compl-col)\.(okay|vanished):\{[^}]*RowSingleton[^}]*\}',
+      'RowSingletonPS: the dual of a removed singleton row gets the wrong sign / is not complementary for a row that is one-sided in the original LP, or the reduced cost stays on the column although the bound it prices came from the singleton row and the original bound is infinite (minimal LP 4x4 with FixBounds, FixVariable, RowSingleton)', regex=True)
 open_(['C08'], r'objoffset\.(okay|vanished):\{[^}]*MultiAggregation[^}]*\}',
       'multi-aggregation does not add the constant part of the substituted objective term to the objective offset (reduced optimum + getObjoffset() != original optimum)', regex=True)
 open_(['C08'], 'verdict.UNBOUNDED-on-infeasible:{}', 'simplifier reports UNBOUNDED for an LP that is (primal) infeasible and dual infeasible')
